@@ -17,4 +17,20 @@ var Properties = map[string]PropDef{
 			{Name: "types.ZZC17Names"},
 		},
 	},
+	"C08": {
+		ID:     "C08",
+		Bounds: "quick: environments of K<=2 names with depth-1 bodies (10 constructors, 3 labels, 4 modes, legal shifts, alias chains) against query types S,T that are unit or a name, plus K=1 with S,T of depth<=1; thorough: K=3 with leaf queries, K=2 with depth-1 queries, K=1 with depth-2 queries. Unwinding assertion: call depth 200 / 300 loop iterations",
+		Assumptions: []string{
+			"environments are well-formed, contractive and mode-complete by construction (the documented precondition of EqualType); alias bodies name a lower-numbered definition",
+			"reflect.TypeOf is modelled as the dynamic-type token of its operand; bytes.Buffer as a rope of string parts",
+			"the reference verdict is bisimilarity of regular trees computed as a least fixed point (K*K+1 rounds) by harness code that is itself replayed natively",
+		},
+		Outside: "environments with more than 3 names or bodies deeper than 1; query types deeper than 2; map iteration order",
+		Harnesses: []HarnessDef{
+			{Name: "types.ZZC08Oracle", Quick: map[string]int{"K": 2, "D": 0}, Thorough: map[string]int{"K": 3, "D": 0}, Depth: 200},
+			{Name: "types.ZZC08Oracle", Quick: map[string]int{"K": 1, "D": 1}, Thorough: map[string]int{"K": 2, "D": 1}, Depth: 200},
+			{Name: "types.ZZC08Oracle", Quick: map[string]int{"K": 0, "D": 1}, Thorough: map[string]int{"K": 1, "D": 2}, Depth: 200},
+			{Name: "types.ZZC08Laws", Quick: map[string]int{"K": 2, "D": 0}, Thorough: map[string]int{"K": 2, "D": 1}, Depth: 200},
+		},
+	},
 }
